@@ -140,7 +140,7 @@ def cases(rng, tier):
            "CurveFitting([2.0, 2.0, 2.0], [2.0, 4.1, 7.2]).quadratic_fitting()",
            "CurveFitting([2.0, 2.0, 2.0], [2.0, 4.1, 7.2]).correlation_coeff()",
            "CurveFitting([0.1, 0.1, 0.1], [2.0, 4.1, 7.2]).correlation_coeff()",
-           "CurveFitting([604.5]*4, [2.0, 4.1, 7.2, 1.0]).quadratic_fitting()",
+           "CurveFitting([604.5, 604.5, 604.5, 604.5], [2.0, 4.1, 7.2, 1.0]).quadratic_fitting()",
            "CurveFitting([1.0, 2.0, 3.0], [5.0, 5.0, 5.0]).correlation_coeff()",
            "CurveFitting([1.0, 2.0], [5.0, 7.0]).quadratic_fitting()",
            "CurveFitting([1.0, 2.0], [5.0, 7.0]).linear_fitting()",
